@@ -1413,13 +1413,16 @@ func (e *Enc) bytesInterpretation(bseq string) {
 	if err1 != nil || err2 != nil || ls != "Int" || as != "Int" {
 		return
 	}
-	e.emit("; bytes() interpretation: length and elements of the abstracted slice")
+	// emitted as axioms: subject to the relevance filter of solve.go (kept only when blen / bat / bsub matter)
+	e.emit("; axiom bytes-interpretation-len")
 	e.assert("(forall ((a (Array Int Int)) (o Int) (n Int)) (! (=> (<= 0 n) (= (" + ln + " (" + bseq + " a o n)) n)) :pattern ((" + bseq + " a o n))))")
+	e.emit("; axiom bytes-interpretation-at")
 	e.assert("(forall ((a (Array Int Int)) (o Int) (n Int) (i Int)) (! (=> (and (<= 0 i) (< i n)) (= (" + an + " (" + bseq + " a o n) i) (select a (+ o i)))) :pattern ((" + an + " (" + bseq + " a o n) i))))")
 	// `bsub(b bytes, lo int, hi int) bytes` (sub-string [lo, hi)): the content of a re-sliced []byte s[lo:hi] is
 	// bsub(bytes(s), lo, hi) — a consequence of the element link and extensionality, stated so that no solver has to find it
 	if gs, ok := e.DB.Ghosts["bsub"]; ok && gs.Body == nil && len(gs.Params) == 3 {
 		if sn, ss, err := e.ghostSymbol(gs); err == nil && ss == "Bytes" {
+			e.emit("; axiom bytes-interpretation-sub")
 			e.assert("(forall ((a (Array Int Int)) (o Int) (n Int) (lo Int) (hi Int)) (! (=> (and (<= 0 lo) (<= lo hi) (<= hi n)) (= (" + sn + " (" + bseq + " a o n) lo hi) (" + bseq + " a (+ o lo) (- hi lo)))) :pattern ((" + sn + " (" + bseq + " a o n) lo hi))))")
 		}
 	}
